@@ -9,6 +9,8 @@ claimed={
  'C03':("FMA = exact x*y+u rounded once, validated on recorded executions against the TLA+ operator OpFMA (one rounding of the exact sum; IEEE special values and zero-sum sign rule); the trace spec classifies each case as same-as / differs-from Mul-then-Add so the characterisation in the statement is exercised both ways.","4 C03"),
  'C04':("complete enumeration of operation x operand classes x modes executed on the real library and validated against the specification's IEEE dispatch; the outcome (ok / ErrNaN / other panic) of every event of every driver is an observed field.","4 C04"),
  'C05':("Sqrt validated against the integer-square-root specification and, independently, the squaring-only declarative predicate SqrtOK evaluated by TLC on the observed root.","4 C05"),
+ 'C06':("dec.mul / dec.sqr / dec.div are driven through the verif hooks at all sizes and 8 threshold assignments with dirty and poisoned buffers; TLC validates every call against the natural-number identities (exact arithmetic) and classifies it by code path; Mul/Quo through the API on the same sizes are validated against the rounding specification.","4 C06"),
+ 'C07':("every kernel call of a structured enumeration runs the build's implementation (assembly on amd64) and the portable Go one; TLC checks both against the mathematical post-condition over the pre-state (KernelPost/ScalarPost), hence against each other; whole-library programs run under three build configurations and the event logs must be identical.","4 C07"),
  'C08':("the state invariant Canonical is evaluated by TLC on every register named by every event of long recorded histories.","4 C08"),
  'C09':("precision/mode stickiness and operand immutability are evaluated by TLC on every event: receiver attributes against the documented value, operands against the model state, unnamed registers by digest.","4 C09"),
  'C10':("refinement of a buffer-free specification: every operation instance is executed under all aliasing partitions and receiver histories; all variants are validated against the specification, and variants of one instance are compared with each other by the trace specification.","4 C10"),
@@ -18,6 +20,7 @@ claimed={
  'C14':("Int/Int64/Uint64/Rat/IsInt/MinPrec and SetInt/SetInt64/SetUint64/SetRat/NewDecimal of recorded executions are validated against exact truncation / saturation / single rounding in the specification.","4 C14"),
  'C15':("SetFloat64/SetFloat (exact when representable, else within 1 / 64 ulp) and Float64/Float32 (declarative nearest-even predicate NearestOK by cross-multiplication, accuracy = sign(returned - x)) validated on adversarial bit patterns, midpoints and double-rounding triggers constructed from the specification side.","4 C15"),
  'C17':("GobEncode is validated against the specification's decoder, GobDecode against WellFormedGob/DecodeGob on valid, corrupted, truncated and hand-made payloads; decoded receivers are used afterwards.","4 C17"),
+ 'C18':("DecPool.tla models the scratch pool protocol and TLC checks every interleaving of 2-3 goroutines' get/use/put micro-steps (and that the early-put defect is caught); goroutine executions of the real code are validated event by event against the sequential specification, the logged pool events against DecPool's Get/Put, scratch buffers are poisoned on get and put, and a -race pure-Go build runs the same programs.","4 C18"),
  'C19':("the Context latch is a hidden variable of the trace specification inferred by TLC from recorded sessions; results are validated against apply-then-operate semantics with the context's precision and mode.","4 C19"),
  'C16':("Cmp/Sign/Signbit/IsZero/IsInf of recorded executions are compared by TLC with the sign of the exact difference computed by the specification, on adversarial pairs/triples in all ordered pairs.","4 C16"),
  'C20':("SetBitsExp/BitsExp/MantExp/SetMantExp validated against TLA+ operators with exact (BigInt) exponent arithmetic over all int64 exponents.","4 C20"),
